@@ -51,6 +51,13 @@ fn check_eci_number(n: u32) -> Result<(), String> {
     if cw.len() < form.len() || cw[..form.len()] != form[..] {
         return Err(format!("ECI {} is written as {:?}, the standard's form is {:?}", n, &cw[..cw.len().min(form.len())], form));
     }
+    // the lower level entry point writes the same designator
+    match guard(|| datamatrix::data::encode_data(b"", &datamatrix::SymbolList::default(), Some(n), datamatrix::EncodationType::all(), true)) {
+        Ok(Ok((v, _))) if v[..] == cw[..] => {}
+        Ok(Ok((v, _))) => return Err(format!("data::encode_data writes ECI {} as {:?}, the builder as {:?}", n, &v[..v.len().min(5)], &cw[..cw.len().min(5)])),
+        Ok(Err(e)) => return Err(format!("data::encode_data(b\"\", .., Some({}), ..) failed: {:?}", n, e)),
+        Err(p) => return Err(format!("data::encode_data(b\"\", .., Some({}), ..) panicked: {}", n, p)),
+    }
     // what follows must be padding only
     if cw.len() > form.len() && cw[form.len()] != 129 {
         return Err(format!("ECI {} with empty data: codeword after the designator is {} (expected pad 129)", n, cw[form.len()]));
